@@ -15,6 +15,7 @@
    (memcmp/strcmp are modelled by their sign). *)
 From Coq Require Import List ZArith Reals.
 From Flocq Require Import Core IEEE754.BinarySingleNaN IEEE754.Binary IEEE754.Bits.
+From RtoscV Require Osc.OscModel.
 From RtoscV Require Import ArgVal.AvModel ArgVal.AvSpec ArgVal.AvCmpProofs ArgVal.AvRegress ArgVal.AvFloat ArgVal.AvFlocq.
 Import ListNotations.
 Local Open Scope Z_scope.
@@ -118,19 +119,47 @@ Theorem C16_compress_invariant : forall F a a' v b vb addr,
   vals_cmp F a a' (Zlength a) (Zlength a') = Some 0 /\
   vals_eq F a a' (Zlength a) (Zlength a') = Some true /\
   iterate F a (Zlength a) = iterate F a' (Zlength a') /\
-  avmessage F addr a (Zlength a) = avmessage F addr a' (Zlength a').
+  forall buf, avmessage F buf addr a (Zlength a) = avmessage F buf addr a' (Zlength a').
 Proof. exact law_compress. Qed.
 
 (* what iteration yields / the message built from the list are functions of the
    written-out values alone (NaN allowed): iteration yields exactly those
-   values, the message is the one rtosc_amessage builds from their tags and
-   payloads *)
-Theorem C16_iterate_message : forall F a a' v addr,
-  denote F a v -> denote F a' v ->
+   values; the message rtosc_avmessage builds is the OSC 1.0 encoding
+   (Osc/OscModel.enc_spec, the Spec encoder of C01) of the address, the tags of
+   the written-out values and the payloads of those that have one - the NULL
+   probe returns its size, a destination that is large enough receives exactly
+   these bytes at its front and is untouched behind them.  A top-level array
+   is sent as the bare tag 'a' (97) without payload: its elements are NOT in
+   the message ([vtype], [payloads_of] in ArgVal/AvSpec.v).  Precondition
+   [payloads_of v = Some ps]: no top-level string is NULL. *)
+Theorem C16_iterate_message : forall F a a' v addr ps,
+  denote F a v -> denote F a' v -> payloads_of v = Some ps ->
+  let enc := OscModel.enc_spec addr (map vtype v) ps in
   iterate F a (Zlength a) = Some v /\ iterate F a' (Zlength a') = Some v /\
-  avmessage F addr a (Zlength a) = message_of addr v /\
-  avmessage F addr a' (Zlength a') = message_of addr v.
+  avmessage F None addr a (Zlength a) = Some (OscModel.zlen enc, None) /\
+  avmessage F None addr a' (Zlength a') = Some (OscModel.zlen enc, None) /\
+  forall buf, OscModel.zlen enc <= OscModel.zlen buf ->
+    avmessage F (Some buf) addr a (Zlength a) = Some (OscModel.zlen enc, Some (enc ++ skipn (length enc) buf)) /\
+    avmessage F (Some buf) addr a' (Zlength a') = Some (OscModel.zlen enc, Some (enc ++ skipn (length enc) buf)).
 Proof. exact law_compress_iter_msg. Qed.
+
+(* for every destination (also one that is too small: zero-filled, 0 returned)
+   rtosc_avmessage is rtosc_amessage on those tags and payloads *)
+Theorem C16_message_is_osc_encoding : forall F addr a va ps,
+  denote F a va -> payloads_of va = Some ps ->
+  let enc := OscModel.enc_spec addr (map vtype va) ps in
+  avmessage F None addr a (Zlength a) = Some (OscModel.zlen enc, None) /\
+  forall buf,
+    avmessage F (Some buf) addr a (Zlength a) =
+    if OscModel.zlen buf <? OscModel.zlen enc
+    then Some (0, Some (OscModel.zeros (OscModel.zlen buf)))
+    else Some (OscModel.zlen enc, Some (enc ++ skipn (length enc) buf)).
+Proof. exact avmessage_is_osc. Qed.
+
+(* the list of tags rtosc_avmessage keeps a payload for (its strchr) is exactly
+   has_reserved of rtosc.c *)
+Theorem C16_payload_tags_agree : forall t, has_reserved t = has_payload t.
+Proof. exact has_reserved_kind. Qed.
 
 (* a slot list stands for at most one list of values *)
 Theorem C16_denote_functional : forall F a v v', denote F a v -> denote F a v' -> v = v'.
@@ -283,7 +312,7 @@ Proof. exact D23_compress_refuted. Qed.
    entry of 'true' (None in the model: that value has no payload) *)
 Theorem C16_old_D24_message_refuted :
   exists a v, denote F0 a v /\
-    avmessage_gen false F0 [47; 97] a (Zlength a) = None /\
-    message_of [47; 97] v = Some [47; 97; 0; 0; 44; 84; 105; 0; 0; 0; 0; 5] /\
-    avmessage F0 [47; 97] a (Zlength a) = message_of [47; 97] v.
+    avmessage_gen false F0 None [47; 97] a (Zlength a) = None /\
+    message_enc [47; 97] v = Some [47; 97; 0; 0; 44; 84; 105; 0; 0; 0; 0; 5] /\
+    avmessage F0 None [47; 97] a (Zlength a) = Some (12, None).
 Proof. exact D24_message_refuted. Qed.
